@@ -836,6 +836,10 @@ func unify(p, t *Term, b Bind) bool {
 			if c, ok := t.Obj.(*types.Const); p.K == "const" && ok && c.Val() != nil && (c.Val().ExactString() == p.S || c.Val().String() == p.S) {
 				break
 			}
+			// ... and an unexported alias of a named constant matches that constant's name
+			if a, ok := constAlias[t.Obj]; p.K == "const" && ok && t.Obj != nil && nameMatches(p.S, a) {
+				break
+			}
 			return false
 		}
 	case "store":
